@@ -11,7 +11,8 @@
  * over a bit string that starts with that codeword: the walk must return s and consume exactly len[s] bits.
  *
  * NS symbols, lengths <= ML; tree array of 2*NS entries (the ratio of all real instantiations).
- * COMB: the lengths are a permutation of 1,2,...,NS-2,NS-1,NS-1 (maximum-depth code, NS = 17: 16-bit codes). */
+ * COMB: the lengths are a permutation of 1,2,...,NS-2,NS-1,NS-1 (maximum-depth code; NS = 17: 16-bit codes).
+ * COMBROT: the same comb, the symbol order being any rotation or reflected rotation (2*NS arrangements). */
 #include "verif.h"
 #include <string.h>
 #include "lib/lha_decoder.h"
@@ -52,6 +53,18 @@ void harness(void)
 		if (lens[i] != 0) kraft += 1u << (ML - lens[i]);
 	}
 	ASSUME(kraft == (1u << ML));              /* complete prefix code */
+#ifdef COMBROT
+	{
+		/* comb at a symbolic rotation / reflection of the symbol order (a subfamily of the permutations, cheap) */
+		INPUT(u32, rot); INPUT(u8, rev);
+		ASSUME(rot < NS);
+		for (i = 0; i < NS; ++i) {
+			unsigned k = (i + rot) % NS;
+			if (rev & 1) k = NS - 1 - k;
+			ASSUME(lens[i] == (k + 1 < ML ? k + 1 : ML));
+		}
+	}
+#endif
 #ifdef COMB
 	{
 		unsigned l, cnt;
